@@ -34,10 +34,14 @@ func (u *UseCase) UpdateTx(ctx context.Context, oldTxId, newTxId string, filter 
 		freeNodes = make([]*core.Node[model.File], 0, tx.Len())
 	)
 	defer func() {
+		// The links live in the all-store lists, which readers and writers of
+		// every transaction traverse: unlink them under the all-store lock.
+		u.allStore.Lock()
 		for _, n := range freeNodes {
 			link := n.DeleteLink()
 			u.nodePool.Release(link, n)
 		}
+		u.allStore.Unlock()
 		deleteFiles = append(deleteFiles, files...)
 	}()
 
